@@ -1253,7 +1253,7 @@ Qed.
 Definition wit_crypto : crypto := mkCrypto (fun x => x) (fun x => x) (fun _ _ => true).
 Definition wit_cfg : config :=
   mkConfig [MLogout] false false false false false false 3 300 300 3600 3600 [] true false false DELETE GET false
-           [] RespNotFound [] [] false false.
+           [] RespNotFound [] [] false false false.
 Definition wit_world : world := mkWorld (mkStorage [] []) [(bs "b", [(k_uid, bs "a")])] [(bs "b", [(k_rm, bs "t")])].
 Definition wit_req : request := mkRequest (bs "b") DELETE RLogout (bs "/logout") [] [] [] false.
 Definition wit_oracle : oracle := mkOracle 0 [] [] [(0%nat, EGeneric); (1%nat, EGeneric)] (mkPA false false [] [] [] [] 0).
